@@ -19,8 +19,8 @@ EXTENDS Naturals, Sequences, FiniteSets, TLC, Json
 
 CONSTANTS Mode, MaxStmts
 
-VARIABLES prog, n, cfg, done, kinds
-vars == <<prog, n, cfg, done, kinds>>
+VARIABLES prog, n, cfg, done, kinds, lc   \* lc: the program ends in a line comment (a newline must follow)
+vars == <<prog, n, cfg, done, kinds, lc>>
 
 NL == "\n"
 \* ---------------------------------------------------------------------------------------------
@@ -140,26 +140,29 @@ Corners == {Cfg("Preserve", "Preserve", "Never", FALSE, 120, "s4", TRUE, TRUE, "
 \* ---------------------------------------------------------------------------------------------
 Init ==
   IF Mode = "single"
-  THEN /\ cfg \in Corners /\ n = 1 /\ done = TRUE /\ kinds = <<>>
+  THEN /\ cfg \in Corners /\ n = 1 /\ done = TRUE /\ kinds = <<>> /\ lc = FALSE
        /\ prog \in AllStmts \cup {l \o NL \o "local v = f 's'" : l \in Leading}
                            \cup {"v = {1,2,}" \o t \o NL \o "w = 2" \o t : t \in Trailing}
-  ELSE /\ cfg \in Lattice /\ prog = "" /\ n = 0 /\ done = FALSE /\ kinds = <<>>
+  ELSE /\ cfg \in Lattice /\ prog = "" /\ n = 0 /\ done = FALSE /\ kinds = <<>> /\ lc = FALSE
 
+SepsNL == {NL, ";" \o NL, NL \o NL \o NL \o NL, NL \o "  "}
+Sep == IF lc THEN RandomElement(SepsNL) ELSE RandomElement(Seps)
 Lead == IF RandomElement(1..3) = 1 THEN RandomElement(Leading) \o NL ELSE ""
-Trail == IF RandomElement(1..4) = 1 THEN RandomElement(Trailing) ELSE ""
 
 AddStmt(k) ==
   /\ ~done /\ n < MaxStmts
-  /\ prog' = prog \o (IF n = 0 THEN "" ELSE RandomElement(Seps)) \o Lead \o RandomElement(StmtSet(k)) \o Trail
+  /\ \E t \in {IF RandomElement(1..4) = 1 THEN RandomElement(Trailing) ELSE ""} :   \* bound once
+       /\ prog' = prog \o (IF n = 0 THEN "" ELSE Sep) \o Lead \o RandomElement(StmtSet(k)) \o t
+       /\ lc' = (t # "" /\ t # " --[[ c ]]")
   /\ n' = n + 1 /\ kinds' = Append(kinds, k)
   /\ UNCHANGED <<cfg, done>>
 
 Finish ==
   /\ ~done /\ n >= 1
-  /\ prog' = prog \o (IF RandomElement(1..3) = 1 THEN RandomElement(Seps) \o Lead \o RandomElement(Returns) ELSE "")
+  /\ prog' = prog \o (IF RandomElement(1..3) = 1 THEN Sep \o Lead \o RandomElement(Returns) ELSE "")
                   \o RandomElement({"", NL, NL \o NL, NL \o "-- end", NL \o Lead})
   /\ done' = TRUE
-  /\ UNCHANGED <<n, cfg, kinds>>
+  /\ UNCHANGED <<n, cfg, kinds, lc>>
 
 Next == (\E k \in Kinds : AddStmt(k)) \/ Finish
 Spec == Init /\ [][Next]_vars
